@@ -64,6 +64,11 @@ def build_world(spec: dict) -> str:
     for d in ("cwd", "tmp", "alt-tmp", "in", "cap"):
         if spec.get("missing_tmp") and d in ("tmp", "alt-tmp"):
             continue  # knob: $TMPDIR and the system temp dirs do not exist; tempfile falls back to the cwd
+        if spec.get("symlink_tmp") and d == "tmp":
+            # knob: $TMPDIR is reached through a symbolic link (TMPDIR=/link -> /real/dir, macOS-style /tmp -> /private/tmp)
+            os.makedirs(os.path.join(root, "tmp-real"))
+            os.symlink("tmp-real", os.path.join(root, "tmp"))
+            continue
         os.makedirs(os.path.join(root, d))
     for rel, text in sorted(spec.get("files", {}).items()):
         p = os.path.join(root, rel)
